@@ -97,7 +97,8 @@ def policy : List (Nat × Discipline) := [
   (L.«exec.Cmd.SysProcAttr», .perInstance [rCleanup, rLine, rSpot]),
   (L.«local actor.runActorCommand.outbuf», .perInstance [rCleanup, rLine]),
   (L.«local actor.runActorCommandWithConsumer.stopRead», .perInstance [rCleanup, rLine, rSpot]),
-  -- objects that travel through channels (A3): reports to the collector, events to the audition,
+  -- objects that travel through channels (A3; the translator checks that no function writes them after
+  -- sending them: `sentThenWritten`): reports to the collector, events to the audition,
   -- error values to whoever waits for them
   (L.«actionReport.failOk», .message),
   (L.«auditionReport.output», .message),
